@@ -32,6 +32,23 @@ EdgeRef edge_ref(int kind, double a, double f, const Vtx& p, const Vtx& q, bool 
   EdgeRef r; r.ok = true; r.s12 = r.S12 = r.dlam = 0; r.tolp = r.tolS = r.sens = 0;
   ref::Ellipsoid E(a, f);
   L areascale = E.c2 / 4.0589e13L;
+  // ---- an edge (shortest line to a given vertex) with exactly one end point at a pole.  The pole vertex carries the
+  // longitude it was given with: the line is the meridian of the other point, and the whole longitude change d happens at
+  // the pole, so the area between the edge and the equator is the lune of that hemisphere, S12 = sign(pole) c2 d, for
+  // geodesic and rhumb edges alike (independent of the library); the length is the meridian distance, taken from the
+  // library's inverse (validated for pole end points by C02 / C09).
+  if (!q_by_edge && (std::fabs(p.lat) == 90) != (std::fabs(q.lat) == 90)) {
+    L d = remainderl((L)q.lon - (L)p.lon, 360.0L);
+    if (fabsl(fabsl(d) - 180) < 1e-9L) { r.ok = false; r.why = "pole end point on the opposite meridian (sense of the longitude change is a tie rule)"; return r; }
+    double polelat = std::fabs(p.lat) == 90 ? p.lat : q.lat, other = std::fabs(p.lat) == 90 ? q.lat : p.lat, s;
+    if (kind == 2) { double az, S; Rhumb(a, f, false).Inverse(p.lat, p.lon, q.lat, q.lon, s, az, S); }
+    else { Inv o = lib_inverse(kind, a, f, p.lat, p.lon, q.lat, q.lon); s = o.s12; }
+    r.s12 = s; r.S12 = (polelat > 0 ? 1 : -1) * E.c2 * d * ref::DEG_L; r.dlam = d;
+    r.tolp = (kind == 2 ? 1e-9L * (1 + fabsl(r.s12) / 1e7L) * (a / 6378137.0) : kdoc(kind, a, f) * 3);
+    r.sens = E.c2 * dalpha_ds_iso(E, other) + fabsl(r.s12) + E.a;
+    r.tolS = 2 * 0.1L * areascale * 3 + 2 * r.sens * r.tolp;
+    return r;
+  }
   if (kind == 2) {
     Rhumb rh(a, f, false);
     if (q_by_edge) {
